@@ -291,6 +291,21 @@ def _build_result(case):
     return r
 
 
+def _same_f64(got, want):
+    """the identical float64 value (bit for bit); something that is not a number at all is never the same"""
+    try:
+        return bits(got) == bits(want)
+    except (TypeError, ValueError):
+        return False
+
+
+def _hexf_or_repr(v):
+    try:
+        return hexf(v)
+    except (TypeError, ValueError):
+        return repr(v)
+
+
 def _member_class(name):
     if name == "info.json":
         return 0, "info"
@@ -333,8 +348,10 @@ def impl_res(case):
     diff = None
     if got.info != dd["info"]:
         diff = "info differs: %r" % (got.info,)
-    elif list(got.stats.keys()) != [k for k, _ in dd["stats"]] or any(bits(got.stats[k]) != bits(unhex(v)) for k, v in dd["stats"]):
-        diff = "stats differ: %r" % ([(k, hexf(v)) for k, v in got.stats.items()],)
+    elif list(got.stats.keys()) != [k for k, _ in dd["stats"]] or any(not _same_f64(got.stats[k], unhex(v)) for k, v in dd["stats"]):
+        bad = [(k, _hexf_or_repr(got.stats.get(k)), v) for k, v in dd["stats"] if k not in got.stats or not _same_f64(got.stats[k], unhex(v))]
+        diff = "stats differ: %r%s" % ([(k, _hexf_or_repr(v)) for k, v in got.stats.items()],
+                                       "; first: statistic %r saved as %s came back as %s" % (bad[0][0], bad[0][2], bad[0][1]) if bad else "")
     elif list(got.np_arrays.keys()) != [k for k, _ in dd["arrays"]]:
         diff = "array names differ: %r" % (list(got.np_arrays.keys()),)
     else:
@@ -381,7 +398,7 @@ def impl_res(case):
             except Exception as e:  # noqa
                 members.append([code if code is not None else 9, stem, "garbled", "%s: %s" % (type(e).__name__, str(e)[:120])])
     out["members"] = members
-    out["loaded"] = {"stats": [[k, hexf(v)] for k, v in got.stats.items()],
+    out["loaded"] = {"stats": [[k, _hexf_or_repr(v)] for k, v in got.stats.items()],
                      "arrays": [[k, [hexf(x) for x in np.asarray(a, dtype=float).ravel()]] for k, a in got.np_arrays.items()],
                      "trajs": tv}
     return out
@@ -992,6 +1009,56 @@ def res_order_cases():
     return cs
 
 
+def nonfinite_stats_cases(ctx):
+    """metric results as evo_ape/evo_rpe compute them for valid trajectories with coordinate magnitudes of 1e154..1e300: the
+    error values are finite but their squares overflow, so sse/rmse are +inf, from ~1e200 also mean/max = inf and std = nan.
+    'for every ... statistic, the identical float64 value': inf, -inf and nan statistics come back as that float64."""
+    rng = ctx.np_rng(31)
+    cs = []
+    NAN, INF = float("nan"), float("inf")
+    patterns = [  # (rmse, mean, median, std, min, max, sse) shapes seen from evo at large magnitudes
+        {"rmse": INF, "sse": INF}, {"rmse": INF, "sse": INF, "mean": INF, "max": INF, "std": NAN},
+        {"rmse": INF, "sse": INF, "mean": INF, "max": INF, "min": INF, "median": INF, "std": NAN},
+        {"std": NAN}, {"min": -INF}, {"rmse": NAN, "mean": NAN, "median": NAN, "std": NAN, "min": NAN, "max": NAN, "sse": NAN}]
+    for i in range(ctx.n(36, 240)):
+        ks = ["rmse", "mean", "median", "std", "min", "max", "sse"]
+        mag = 10.0 ** float(rng.uniform(150, 300))
+        stats = {k: float(abs(hard_scalar(rng, 0)) * mag) if rng.random() < 0.5 else abs(hard_scalar(rng)) for k in ks}
+        stats.update(patterns[i % len(patterns)])
+        keep = [k for k in ks if k in patterns[i % len(patterns)] or rng.random() < 0.7]
+        if rng.random() < 0.3:
+            rng.shuffle(keep)
+        n = int(rng.integers(1, 6))
+        arrays = [["error_array", [hexf(abs(hard_scalar(rng, 0)) * mag) for _ in range(n)]],
+                  ["timestamps", [hexf(float(j)) for j in range(n)]]][:int(rng.integers(0, 3))]
+        info = {"title": "APE w.r.t. translation part (m)", "est_name": "e%d" % i, "ref_name": "r"}
+        cs.append({"kind": "res", "variant": VARIANTS[i % 4], "load_trajectories": bool(i % 2),
+                   "data": {"info": info, "stats": [[k, hexf(stats[k])] for k in keep], "arrays": arrays, "trajs": []}})
+    return cs
+
+
+def surrogate_info_cases(ctx):
+    """'unicode info strings': est_name / ref_name / title as evo_ape stores them for a file whose name is not valid UTF-8
+    (os.fsdecode gives lone surrogates U+DC80..U+DCFF for the undecodable bytes), next to astral and other lone surrogates"""
+    rng = ctx.np_rng(32)
+    cs = []
+    # file names as bytes (Latin-1 / truncated UTF-8 / arbitrary high bytes), decoded the way python hands them to evo
+    raw = [b"est_caf\xe9.tum", b"/data/run\xff\xfe/traj.txt", b"\x80", b"a\xa0b", b"x\xbf", b"\xf0\x9f\x98\x80 ok\xe4",
+           b"r\xc3\xa9f\xe9", b"\xc3", b"t\xe2\x82", b"K\xd6LN/\xfcbung.tum"]
+    pieces = [b.decode("utf-8", "surrogateescape") for b in raw]
+    for i in range(ctx.n(24, 160)):
+        a, b = [pieces[int(j)] for j in rng.integers(0, len(pieces), 2)]
+        info = {"title": "APE w.r.t. translation part (m) for " + a, "est_name": a, "ref_name": b, "label": "x"}
+        if i % 3 == 0:
+            info["nested"] = {"names": [a, b], "k": 1}
+        if i % 4 == 1:
+            info[b] = "key"
+        stats = [["rmse", hexf(abs(hard_scalar(rng, 0)))], ["mean", hexf(abs(hard_scalar(rng, 0)))]]
+        cs.append({"kind": "res", "variant": VARIANTS[i % 4], "load_trajectories": bool(i % 2),
+                   "data": {"info": info, "stats": stats, "arrays": [["error_array", [hexf(0.5), hexf(0.25)]]], "trajs": []}})
+    return cs
+
+
 def random_cases(ctx):
     rng = ctx.np_rng(3)
     cs = []
@@ -1045,6 +1112,8 @@ def random_cases(ctx):
         info = {"title": "t %d ✓" % i, "est_name": "e%d" % i, "k": float(rng.normal())}
         cs.append({"kind": "res", "variant": VARIANTS[i % 4], "load_trajectories": bool(i % 3 != 0),
                    "data": {"info": info, "stats": [[str(a), b] for a, b in stats], "arrays": [[str(a), b] for a, b in arrays], "trajs": trajs}})
+    cs.extend(nonfinite_stats_cases(ctx))
+    cs.extend(surrogate_info_cases(ctx))
     # large trajectories: spec layer only
     sizes = [200, 1000] if ctx.quick else [200, 1000, 10 ** 4, 10 ** 5, 10 ** 5]
     for i, n in enumerate(sizes):
